@@ -1,4 +1,5 @@
 import Pamqp.Spec.Defs
+import Pamqp.Proofs.Envelope
 /-!
 # C18 — body, heartbeat and protocol-header frames round-trip on every channel
 -/
@@ -11,12 +12,12 @@ theorem C18_body (legacy : Bool) (cat : Cat) (b : Bytes) (hne : b ≠ []) (hl : 
     (ch : Nat) (hc : ch < 65536) (rest : Bytes) :
     ∃ bs, Frame.marshal legacy cat (.body (.bytes b)) (.int ch) = .ok bs ∧ bs.length = b.length + 8 ∧
       Frame.unmarshal cat (bs ++ rest) = .ok (b.length + 8, ch, .body (.bytes b)) := by
-  sorry
+  exact Proofs.body_roundtrip legacy cat b hne hl ch hc rest
 
 theorem C18_heartbeat (legacy : Bool) (cat : Cat) (ch : PyVal) (rest : Bytes) :
     Frame.marshal legacy cat .heartbeat ch = .ok [8, 0, 0, 0, 0, 0, 0, 0xCE] ∧
     Frame.unmarshal cat ([8, 0, 0, 0, 0, 0, 0, 0xCE] ++ rest) = .ok (8, 0, .heartbeat) := by
-  sorry
+  exact Proofs.heartbeat_roundtrip legacy cat ch rest
 
 theorem C18_protocol_header (legacy : Bool) (cat : Cat) (a b c : Nat) (ha : a < 256) (hb : b < 256)
     (hc : c < 256) (ch : PyVal) (rest : Bytes) :
@@ -24,6 +25,6 @@ theorem C18_protocol_header (legacy : Bool) (cat : Cat) (a b c : Nat) (ha : a < 
       .ok (Frame.amqp ++ [0, UInt8.ofNat a, UInt8.ofNat b, UInt8.ofNat c]) ∧
     Frame.unmarshal cat (Frame.amqp ++ [0, UInt8.ofNat a, UInt8.ofNat b, UInt8.ofNat c] ++ rest) =
       .ok (8, 0, .protocolHeader (.int a) (.int b) (.int c)) := by
-  sorry
+  exact Proofs.protocol_header_roundtrip legacy cat a b c ha hb hc ch rest
 
 end Pamqp.Props
